@@ -196,6 +196,28 @@ def size_limit_cases():
     return out
 
 
+def signature_limit_cases():
+    """a body signature may be up to 255 characters long: messages at and just under the limit are built, and parsed, in either byte order"""
+    from txdbus import message
+    for sig, vals in (('y' * 255, [7] * 255), ('y' * 254, [7] * 254), ('su' * 127 + 'b', ['t', 5] * 127 + [True]), ('(' + 'y' * 253 + ')', [[1] * 253])):
+        try:
+            m = message.MethodCallMessage('/p', 'M', signature=sig, body=vals)
+            back = message.parseMessage(m.rawMessage, [])
+        except Exception as e:
+            return 'a call with a body signature of %d characters (%s...) raised %s: %s' % (len(sig), sig[:6], type(e).__name__, str(e)[:80])
+        if back.signature != sig or not W.same(back.body, [W.canon(ct, v) for ct, v in zip(W.split(sig), vals)]):
+            return 'a call with a body signature of %d characters came back with signature length %r' % (len(sig), back.signature and len(back.signature))
+        for le in (True, False):
+            raw = ref_message(4, 0, 77, [(1, '/o'), (2, 'a.b'), (3, 'S'), (8, sig)], sig, vals, le)
+            try:
+                back = message.parseMessage(raw, [])
+            except Exception as e:
+                return 'parsing a %s-endian signal whose body signature has %d characters raised %s: %s' % ('little' if le else 'big', len(sig), type(e).__name__, str(e)[:80])
+            if back.signature != sig or len(back.body) != len(W.split(sig)):
+                return 'a %s-endian signal whose body signature has %d characters parsed to signature length %r, %d values' % ('little' if le else 'big', len(sig), back.signature and len(back.signature), len(back.body or []))
+    return None
+
+
 def invalid_name_cases():
     """a message naming an invalid path, interface, member, destination or error name cannot be constructed"""
     from txdbus import message
@@ -368,7 +390,7 @@ def bounded(tier, seed):
             f, raw = foreign_case(rnd, kind, fields, flags, serial, body_sig, body_vals, le)
             if f:
                 return n, f, {'raw': raw.hex()}
-    for case in (invalid_name_cases, descriptor_header_cases):
+    for case in (invalid_name_cases, descriptor_header_cases, signature_limit_cases):
         n += 1
         f = case()
         if f:
